@@ -89,8 +89,11 @@ def handle (line : String) : String :=
       let model := match merge shards with
         | none => "err"
         | some out => "ok " ++ showShard out
-      -- inputs outside the theorems' hypotheses are only acceptable when model and implementation reject them
-      if !shards.all wfB && !(model == "err" && impl == "err") then badCase "input outside the theorems' hypotheses (wfB)" else
+      -- inputs outside the theorems' hypotheses (e.g. symbol sections without metadata): the statement is not evaluated,
+      -- the model must still predict the implementation exactly
+      if !shards.all wfB then
+        (if model == impl then answer model else badCase "input outside the theorems' hypotheses (wfB) and model ≠ implementation")
+      else
       match fields impl with
       | ["err"] => answer model
       | ["ok", o] =>
@@ -108,7 +111,9 @@ def handle (line : String) : String :=
       let model := match explode sh with
         | none => "err"
         | some outs => "ok " ++ showShards outs
-      if !wfB sh && !(model == "err" && impl == "err") then badCase "input outside the theorems' hypotheses (wfB)" else
+      if !wfB sh then
+        (if model == impl then answer model else badCase "input outside the theorems' hypotheses (wfB) and model ≠ implementation")
+      else
       match fields impl with
       | ["err"] => answer model
       | ["ok", o] =>
